@@ -181,7 +181,8 @@ def run(chk, facts, tier, only=None):
         # service methods must be function types
         h = c.fn(r"binary_parser::Table::to_env$")
         # inside the loop over the methods of a service entry: a test that mentions TypeInner::Func and an error return
-        loops = [m for m in nodes(h["body"], "match") if m.get("src") == "ForLoopDesugar"]
+        from shared import with_local_callees
+        loops = [m for g_, _via in with_local_callees(c, h, depth=2) for m in nodes(g_["body"], "match") if m.get("src") == "ForLoopDesugar"]
         hasfunc = any("Func" in variant_paths_all(lp) and any(is_err_body(n.get("e")) for n in nodes(lp, "ret") if n.get("e")) for lp in loops)
         chk.expect(hasfunc, "methods-are-functions",
                    "Table::to_env must reject a service whose method type is not (a reference to) a function type")
